@@ -69,6 +69,7 @@ def generate(rng, tier):
     # the recurrence must come out of EVERY entry point and object form: one connection object driven in random order through the raw
     # calls, typed helpers, Read/Write wrappers (fragmenting readers/writers, injected failures), accessor halves, split, clone, unsplit
     import hdr_mix
+    cases += hdr_mix.big_call_cases(rng, Case, [("v", "s"), ("v", "c")])
     cases += hdr_mix.cases(rng, Case, [("v", "s"), ("v", "c")], 100 if tier == "quick" else 3000, 90, special_key=special_key)
     if tier == "thorough":
         cases += step_table_cases(rng, "v")
